@@ -80,10 +80,12 @@ Args(m) ==
                            \cup {<<1, 1, 1, 2, 1, 1>>, <<1, 2, 0, 2, 2, 0>>}
     [] m = "detour"   -> {<<1, 2>>, <<2, 3>>, <<1, 3>>, <<2, 1>>, <<3, 1>>, <<1, 2, 2, 1>>}
     [] m = "wrap"     -> {<<4, 5>>}
-    [] m = "dyn"      -> {<<1, 1>>, <<2, 1>>, <<0, 1>>, <<1, 0>>, <<2, 0>>}   \* <<fn, per_thread>>
+    \* <<fn, per_thread, exit_fn>>: exit_fn 0 = none, 1 = a callback that returns, 2 = a callback that RAISES
+    [] m = "dyn"      -> {<<1, 1, 0>>, <<2, 1, 0>>, <<0, 1, 0>>, <<1, 0, 0>>, <<2, 0, 0>>,
+                          <<1, 1, 1>>, <<2, 1, 2>>, <<1, 0, 2>>, <<2, 0, 1>>}
     [] m = "ldtypes"  -> {<<1>>, <<2>>, <<1, 2>>}
     [] m = "timeit"   -> {<<n>> : n \in Names}
-    [] m = "catch"    -> {<<0>>}
+    [] m = "catch"    -> {<<0>>, <<1>>}        \* 1: with an error_handler that raises
 
 IsGlobal(m, a) == m = "ldtypes" \/ (m = "dyn" /\ a[2] = 0)
 
@@ -115,10 +117,13 @@ VARIABLES
   view,    \* [Threads -> View record] what the getters return
   beh,     \* [Threads -> Behaviour record] what the behavioural probes do, given the view
   dc,      \* [Threads -> SUBSET STRING] components not compared (documented as not thread-safe)
-  act      \* last action, for the replay driver
+  act,     \* last action, for the replay driver
+  out,     \* how the last step ended for its caller: "ok" | "propagated" (the exception passed through)
+           \* | "suppressed" | "raised" (a user callback run on exit raised) | "refused" (enter raised)
+  cbk      \* number of user exit callbacks the last step had to run (0/1)
 
 mech == <<val, kws, permv, ctxm, dst, tfn, gfn, gld, tcur, tstat>>
-vars == <<fam, prog, gprog, val, kws, permv, ctxm, dst, tfn, gfn, gld, tcur, tstat, view, beh, dc, act>>
+vars == <<fam, prog, gprog, val, kws, permv, ctxm, dst, tfn, gfn, gld, tcur, tstat, view, beh, dc, act, out, cbk>>
 noact == <<fam, prog, gprog, val, kws, permv, ctxm, dst, tfn, gfn, gld, tcur, tstat, view, beh, dc>>
 
 EmptyKw(m)  == [k \in KwKeys(m) |-> -1]
@@ -280,6 +285,7 @@ Init ==
   /\ beh   = [t \in Threads |-> Behaviour(View(t))]
   /\ dc    = [t \in Threads |-> {}]
   /\ act   = <<"Init">>
+  /\ out   = "ok" /\ cbk = 0
 
 \* derived variables, to be conjoined AFTER the mechanism variables are primed
 Derive ==
@@ -425,6 +431,7 @@ Enter(t, m, a) ==
        [] m = "timeit"             -> EnterTimeit(t, a)
        [] m = "catch"              -> EnterCatch(t, a)
   /\ act' = <<"Enter", t, m, a>>
+  /\ out' = "ok" /\ cbk' = 0
   /\ Derive
 
 \* with_contextual_override: thread t captures its current overrides (values WITH their
@@ -438,6 +445,17 @@ PropagateEnter(t, u) ==
          a == IF bound = CtxKeys THEN tri(1) \o tri(2) ELSE tri(CHOOSE k \in bound : TRUE) IN
      /\ EnterCtx(u, "ctxprop", a)
      /\ act' = <<"Propagate", t, u, a>>
+  /\ out' = "ok" /\ cbk' = 0
+  /\ Derive
+
+\* a manager called with an argument it refuses (dynamic_evaluate with a non-callable, detour with a
+\* non-class source): entering raises and NOTHING changes
+EnterRaises(t, m) ==
+  /\ m \in fam \cap {"dyn", "detour"}
+  /\ Len(prog[t]) < DepthOf(t)
+  /\ act' = <<"EnterRaises", t, m>>
+  /\ out' = "refused" /\ cbk' = 0
+  /\ UNCHANGED <<prog, gprog, val, kws, permv, ctxm, dst, tfn, gfn, gld, tcur, tstat>>
   /\ Derive
 
 \* LIFO per thread; a process-wide scope can only be left when it is the most recent one of
@@ -461,6 +479,15 @@ Exit(t, exc) ==
           [] f.m = "catch"              -> ExitCatch(t, f)
      /\ prog' = [prog EXCEPT ![t] = Front(@)]
   /\ act' = <<IF exc = 1 THEN "ExitByException" ELSE "ExitNormal", t>>
+  \* user code run on exit: dynamic_evaluate's exit_fn (only after a body without error),
+  \* catch_errors' error_handler (only for a caught error).  Whatever that code does - return or
+  \* RAISE - the scope is left and Restores must hold exactly as for the other exit kinds.
+  /\ LET f == Last(prog[t]) IN
+     /\ cbk' = IF (f.m = "dyn" /\ f.a[3] # 0 /\ exc = 0) \/ (f.m = "catch" /\ f.a[1] = 1 /\ exc = 1) THEN 1 ELSE 0
+     /\ out' = CASE f.m = "dyn" /\ f.a[3] = 2 /\ exc = 0 -> "raised"
+                 [] f.m = "catch" /\ exc = 1 -> (IF f.a[1] = 1 THEN "raised" ELSE "suppressed")
+                 [] exc = 1 -> "propagated"
+                 [] OTHER -> "ok"
   /\ Derive
 
 ExitNormal(t)      == Exit(t, 0)
@@ -472,6 +499,7 @@ Next ==
     \/ ExitByException(t)
     \/ \E m \in fam : \E a \in Args(m) : Enter(t, m, a)
     \/ \E u \in Threads : PropagateEnter(t, u)
+    \/ \E m \in {"dyn", "detour"} : EnterRaises(t, m)
 
 Spec == Init /\ [][Next]_vars
 
@@ -509,6 +537,9 @@ Isolation == [][\A u \in Threads : u # Stepper =>
                   /\ \A c \in Comps \ GlobalComps : view'[u][c] = view[u][c]
                   /\ gprog' = gprog => view'[u] = view[u]
                   /\ prog'[u] = prog[u]]_vars
+
+\* a refused enter changes nothing for anybody
+RefusedIsNoop == [][out' = "refused" => (view' = view /\ prog' = prog /\ gprog' = gprog)]_vars
 
 \* an inner permission scope never widens the outer one (used by C19 as well)
 Narrowing == \A t \in Threads :
